@@ -32,6 +32,8 @@ def run(ctx: Ctx):
     run_rewire(ctx)
     run_prefix_names(ctx)
     run_by_name(ctx)
+    import c07g
+    c07g.run_graph(ctx)
 
 
 def run_main(ctx: Ctx):
